@@ -9,6 +9,7 @@ from ..env import gfapy, GfapyError
 from ..runner import Part, Violation
 
 ID = "C17"
+ATHERIS = ['paths', 'multiline']  # parts also driven by libFuzzer in the thorough tier (vf/runner.py: all_parts)
 RULE = ("part 'paths' (construction based): a GFA2 graph of dovetail E lines in both listing arrangements, a "
         "directed walk planted in it, and an O group derived from the walk by eliding edges (where exactly one "
         "fits), eliding segments next to kept edges, replacing sub-walks by nested O groups referenced + or - "
